@@ -105,7 +105,7 @@ class ExternalOptimizer(Optimizer):
                     if answer is None:
                         try:
                             answer = self._handle_request(comm, initial_values)
-                        except Exception as exc:  # noqa: BLE001
+                        except BaseException as exc:  # noqa: BLE001
                             # Store the exception, we first need to send the 'abort' signal:
                             exception = exc
                             answer = "abort"
